@@ -433,13 +433,22 @@ def check_analytic_shoot(case, rec):
             max(f[2], t[2]) >= sorted(ice_spec["range"])[1] - max(1e-2, tol_miss, sh["miss"])
         if not grazing and sh["miss"] < 0.5 * max(1.0, 0.01 * L):
             events = int(sh["turned"]) + int(sh["reflected"])
+            want_events = 0 if p.direct else 1
+            if events != want_events and not mark:
+                # the pass was picked by arc length nearest to the reported path_length; where that
+                # length itself carries the F17 rounding noise (cb metres) a pass with the right
+                # event count within cb of it means the length, not the flag, is what is off
+                alts = [c for c in shot["candidates"] if c["miss"] <= tol_miss and
+                        int(c["turned"]) + int(c["reflected"]) == want_events]
+                if alts and min(abs(c["s"] - L) for c in alts) <= 1e-4 * L + tol_miss + 1e-3 + cond + cb:
+                    mark = " " + F17_MARK
             if p.direct:
                 require(events == 0, "solution %d is flagged direct but the shot ray %s before reaching "
-                        "the receiver; %s", idx,
-                        "reflects off the surface" if sh["reflected"] else "turns over", geom)
+                        "the receiver; %s%s", idx,
+                        "reflects off the surface" if sh["reflected"] else "turns over", geom, mark)
             else:
                 require(events == 1, "solution %d is flagged indirect but the shot ray has %d turning "
-                        "events before reaching the receiver; %s", idx, events, geom)
+                        "events before reaching the receiver; %s%s", idx, events, geom, mark)
                 cl.append("reflected" if sh["reflected"] else "refracted_turn")
             # received direction = tangent of the shot ray at the receiver
             cz = sh["pz"] / sh["n_end"]
